@@ -182,7 +182,7 @@ def parse_swc(
     re_swc = re.compile(rf"^\s*{re_swc_cols_str}\s*([\s+-.0-9]*)$")
 
     last_group = 7 + len(extras) + 1
-    ignored_comment = f"# {' '.join(names.cols())}"
+    ignored_comment = " ".join(names.cols())
     flag = True
 
     comments = []
@@ -200,7 +200,7 @@ def parse_swc(
                         vals[i].append(trans(match.group(i + 1)))
                 elif match := RE_COMMENT.match(line):
                     comment = line[len(match.group(0)) :].removesuffix("\n")
-                    if not comment.startswith(ignored_comment):
+                    if not comment.lstrip().startswith(ignored_comment):
                         comments.append(comment)
                 elif not line.isspace():
                     raise ValueError(f"invalid row {i+1} in `{fname}`")
